@@ -48,6 +48,44 @@ def _case(t):
             x = inject.inject_comments(base, lang, fixed_rng(PROP, 'inj:%s:%d' % (src[1], src[2])), allow_cont=False)
             if x is None or lex.code_stream(lex.lex(x, lang)) != lex.code_stream(lex.lex(base, lang)):
                 return (cid, 'unclean-input', [], [], False, None)
+        elif kind == 'ppunit':
+            # a one-construct unit with a '#pragma' line at every line boundary (variant 0) or at every second one (variants 1, 2)
+            from .c20 import NL_UNITS
+            lines = NL_UNITS[src[1]][1].split(b'\n')
+            out_lines = []
+            for k, l in enumerate(lines):
+                if k > 0 and l.strip() and (src[2] == 0 or (k + src[2]) % 2 == 0):
+                    out_lines.append(b'#pragma vfd %d' % k)
+                out_lines.append(l)
+            x = b'\n'.join(out_lines)
+        elif kind == 'ppinject':
+            # '#ifdef' / '#endif' lines around seeded line ranges: a token that a newline option moves must not cross a directive
+            from .c07 import insertion_points
+            base = corpus.read(src[1])
+            if b'\x00' in base or base[:2] in (b'\xff\xfe', b'\xfe\xff') or b'INDENT-O' in base or b'asm' in base or b'<#' in base or b'\r' in base \
+                    or src[1] in ('cpp/align-330.cpp', 'sql/mysql.sqc', 'oc/available.m') or not tokoracle.well_lexed(lex.lex(base, lang)):
+                return (cid, 'unclean-input', [], [], False, None)
+            pts = insertion_points(base, lang)
+            fr = fixed_rng(PROP, 'ppinj:%s:%d' % (src[1], src[2]))
+            if len(pts) < 4:
+                return (cid, 'unclean-input', [], [], False, None)
+            lines = base.split(b'\n')
+            ins = {}
+            for n in range(min(6, len(pts) // 3)):
+                i, j = sorted(fr.sample(pts, 2))
+                if j - i > 12:
+                    j = min(j, next((q for q in pts if q > i), j))
+                ins.setdefault(i, []).append(b'#ifdef VFD%d' % n)
+                ins.setdefault(j, []).insert(0, b'#endif')
+            out_lines = []
+            for k, l in enumerate(lines):
+                # closers before openers at one boundary keep the pairs properly nested or disjoint
+                for d in sorted(ins.get(k, []), key=lambda d: 0 if d == b'#endif' else 1):
+                    out_lines.append(d)
+                out_lines.append(l)
+            x = b'\n'.join(out_lines)
+            if not tokoracle.well_lexed(lex.lex(x, lang)):
+                return (cid, 'unclean-input', [], [], False, None)
         else:
             x = src[1]
     else:
@@ -128,6 +166,24 @@ def check(ctx):
     for rel, lang, k in sr.sample(inj_u, 700 if quick else len(inj_u)):
         for n in (fixed_rng(PROP, 'injcfg:%s:%d' % (rel, k)).sample(sorted(combos), 3) if quick else sorted(combos)):
             tasks.append(('inject:%s:%d:%s' % (rel, k, n), ('inject', rel, k), lang, combos[n], True))
+    # directive injections (fixed universe: 3 per C-family corpus file) under the same families
+    ppu = [(rel, lang, k) for rel, lang in files if lang in ('C', 'CPP', 'OC', 'OC+', 'CS') for k in range(3)]
+    ctx.extra['directive_injection_universe'] = len(ppu) * len(combos)
+    for rel, lang, k in sr.sample(ppu, 500 if quick else len(ppu)):
+        for n in (fixed_rng(PROP, 'ppcfg:%s:%d' % (rel, k)).sample(sorted(combos), 3) if quick else sorted(combos)):
+            tasks.append(('ppinject:%s:%d:%s' % (rel, k, n), ('ppinject', rel, k), lang, combos[n], True))
+    # every newline add/remove and position option singly at every value over one-construct units whose lines are separated by directives
+    from .c20 import NL_UNITS
+    movers = [o for o in opts if o.cls == 'whitespace' and ((o.name.startswith('nl_') and o.type in ('iarf', 'bool')) or o.name.startswith('pos_'))]
+    units = [u for u in sorted(NL_UNITS) if not (u.startswith('cpp-') and ('c-' + u[4:]) in NL_UNITS)]
+    ctx.extra['directive_units'] = len(units)
+    for o in movers:
+        for val in registry.values_for(o):
+            if str(val).lower() == str(o.default).lower() or cfggen.is_slow(o.name, val):
+                continue
+            for u in units:
+                for variant in ((0,) if quick else (0, 1, 2)):
+                    tasks.append(('ppunit:%s:%d:%s=%s' % (u, variant, o.name, val), ('ppunit', u, variant), NL_UNITS[u][0], {o.name: str(val)}, False))
     # '//' comments ending in backslash + blanks (no splice under the strict phase-2 rule): stripping the blanks would swallow the next line
     for lang in ('C', 'CPP', 'OC'):
         for bi, blanks in enumerate((b' ', b'\t', b'  \t ', b'   ')):
